@@ -4,6 +4,7 @@ import (
 	"fmt"
 	"go/token"
 	"go/types"
+	"sort"
 	"strings"
 
 	"golang.org/x/tools/go/ssa"
@@ -298,6 +299,48 @@ func c12WatchFuncs(c *Ctx) []*ssa.Function {
 	return out
 }
 
+// c12WatchRegion: the watch functions together with the helpers that only they use: unexported,
+// called only statically (p.inlinable), every call an ordinary call (no go/defer) made from the region.
+// This is where a block of Watch lands when it is extracted into a helper that the normalisation
+// pre-pass has to leave in place (a helper with a defer, a recursive one, …).
+func c12WatchRegion(c *Ctx) map[*ssa.Function]bool {
+	p := c.P
+	region := map[*ssa.Function]bool{}
+	for _, f := range c12WatchFuncs(c) {
+		region[f] = true
+	}
+	for changed := true; changed; {
+		changed = false
+		for _, h := range p.FuncsIn(pkgDynCache) {
+			if region[h] || !p.inlinable(h) {
+				continue
+			}
+			all := true
+			for _, cs := range p.callersOf(h) {
+				if _, isCall := cs.Instr.(*ssa.Call); !isCall || !region[cs.Fn] {
+					all = false
+				}
+			}
+			if all {
+				region[h] = true
+				changed = true
+			}
+		}
+	}
+	return region
+}
+
+// c12WatchCalls: the calls of a watch function and of the region helpers it reaches.
+func c12WatchCalls(c *Ctx, fn *ssa.Function, region map[*ssa.Function]bool) []Call {
+	var out []Call
+	for _, xc := range c.P.callsInX(fn) {
+		if xc.Call.Fn == fn || region[xc.Call.Fn] {
+			out = append(out, xc.Call)
+		}
+	}
+	return out
+}
+
 // c12AbsentFact: facts contain ok==false of a comma-ok lookup informerReferences[key] that was
 // evaluated before any insert of fn. Returns the lookup.
 func (p *Program) c12RefLookupFact(fs []Fact, pol bool, key ssa.Value) *ssa.Lookup {
@@ -325,11 +368,12 @@ func (p *Program) mayReturnNonNilErr(ret *ssa.Return) bool { return p.returnErrN
 
 func c12r2(c *Ctx) {
 	p := c.P
+	region := c12WatchRegion(c)
 	for _, fn := range c12WatchFuncs(c) {
 		inserts := c12KindInserts(fn)
 		kindKey := inserts[0].Key
 		// (a) informer creation / handler registration only for a kind that had no reference
-		for _, call := range callsIn(fn) {
+		for _, call := range c12WatchCalls(c, fn, region) {
 			var what string
 			switch {
 			case c12InformerMapCall(call.Common, "Get"):
@@ -351,10 +395,10 @@ func c12r2(c *Ctx) {
 					}
 				}
 			}
-			lk := p.c12RefLookupFact(p.FactsAt(call.Instr.Block()), false, key)
+			lk := p.c12RefLookupFact(p.FactsAtX(call.Instr.Block()), false, key)
 			if lk == nil {
 				o.Fail("%s is reachable for a kind that already has a reference (no dominating `!ok` of informerReferences[kind]); found facts: %s",
-					what, strings.Join(factStrings(p, p.FactsAt(call.Instr.Block())), ", "))
+					what, strings.Join(factStrings(p, p.FactsAtX(call.Instr.Block())), ", "))
 				continue
 			}
 			if ok, mu := c12LookupBeforeInserts(fn, lk); !ok {
@@ -587,8 +631,9 @@ func (p *Program) c12GroupKindParts(v ssa.Value) map[string]c12Part {
 func c12r3(c *Ctx) {
 	p := c.P
 	// (a) success only after handleNewInformer(informer of this Get)
+	region := c12WatchRegion(c)
 	for _, fn := range c12WatchFuncs(c) {
-		for _, call := range callsIn(fn) {
+		for _, call := range c12WatchCalls(c, fn, region) {
 			if !c12InformerMapCall(call.Common, "Get") {
 				continue
 			}
@@ -753,48 +798,6 @@ func stripIncrement(v ssa.Value) ssa.Value {
 	return v
 }
 
-// c12RemovesRef: instruction removes key from informerReferences — directly or through a static
-// helper that does so on every path with the corresponding parameter.
-func (p *Program) c12RemovesRef(in ssa.Instruction, key ssa.Value, depth int) bool {
-	if args, ok := builtinCall(in, "delete"); ok && len(args) == 2 {
-		if _, isRefs := c12IsRefsMap(args[0]); isRefs && p.sameValue(args[1], key) {
-			return true
-		}
-		return false
-	}
-	return p.c12ViaHelper(in, key, depth, p.c12RemovesRef)
-}
-
-// c12StopsInformer: instruction calls informerMap.Delete(_, key), directly or through a helper.
-func (p *Program) c12StopsInformer(in ssa.Instruction, key ssa.Value, depth int) bool {
-	if ci, ok := in.(*ssa.Call); ok && c12InformerMapCall(ci.Common(), "Delete") {
-		a := callArgs(ci.Common())
-		return len(a) == 2 && p.sameValue(a[1], key)
-	}
-	return p.c12ViaHelper(in, key, depth, p.c12StopsInformer)
-}
-
-func (p *Program) c12ViaHelper(in ssa.Instruction, key ssa.Value, depth int, ev func(ssa.Instruction, ssa.Value, int) bool) bool {
-	ci, ok := in.(*ssa.Call)
-	if !ok || depth <= 0 {
-		return false
-	}
-	h := staticCallee(ci.Common())
-	if h == nil || len(h.Blocks) == 0 || ci.Common().IsInvoke() {
-		return false
-	}
-	for i, a := range ci.Common().Args {
-		if i >= len(h.Params) || !p.sameValue(a, key) {
-			continue
-		}
-		prm := h.Params[i]
-		if p.everyReturnPreceded(h, func(x ssa.Instruction) bool { return ev(x, prm, depth-1) }) {
-			return true
-		}
-	}
-	return false
-}
-
 func c12r4(c *Ctx) {
 	p := c.P
 	for _, fn := range c12WatchFuncs(c) {
@@ -803,10 +806,21 @@ func c12r4(c *Ctx) {
 			o := c.Ob(fn, "rollback-after-insert", mu, c.rule.Statement)
 			o.Require("delete(informerReferences, kind) [or helper]", "informerMap.Delete(_, kind) [or helper]", "on every path from the insert to a return whose error may be non-nil")
 			names := []string{"removal of the kind from informerReferences", "informerMap.Delete for the kind"}
-			bad := afterEventEveryReturnPasses(mu, []func(ssa.Instruction) bool{
-				func(in ssa.Instruction) bool { return p.c12RemovesRef(in, key, 2) },
-				func(in ssa.Instruction) bool { return p.c12StopsInformer(in, key, 2) },
-			}, p.mayReturnNonNilErr)
+			// Judged on feasible paths (c12Walk): the error of a merged or called helper that the function
+			// tests and hands on separates "helper failed and rolled back" from "helper succeeded".
+			bad := map[*ssa.Return][]int{}
+			undecided := false
+			for kind := range names {
+				rets, und := p.c12ErrReturnsWithout(kind, mu, key)
+				undecided = undecided || und
+				for _, r := range rets {
+					bad[r] = append(bad[r], kind)
+				}
+			}
+			if undecided {
+				o.Unknown("too many paths behind the insert to enumerate")
+				continue
+			}
 			if len(bad) == 0 {
 				o.OK("every error return after the insert is preceded by both rollback steps")
 				continue
@@ -833,62 +847,23 @@ func sortStrings(s []string) {
 	}
 }
 
-// onlyErrorReturnsAfter: every return reachable after `in` certainly returns a non-nil error.
-func (p *Program) onlyErrorReturnsAfter(in ssa.Instruction) bool {
-	n := 0
-	for _, x := range reachableAfter(in, nil) {
-		if ret, ok := x.(*ssa.Return); ok {
-			n++
-			if p.mayReturnNilErr(ret) {
-				return false
-			}
-		}
-	}
-	return n > 0
-}
-
 // c12IsRollbackSite: the instruction (an informerMap.Delete call or a delete on informerReferences)
-// belongs to the R4 rollback of a watch function: it lies on a pure error path after the insert —
-// directly, or in an unexported helper all of whose callers are such rollback calls for the
-// inserted kind. Anything else that stops informers or forgets kinds falls under R5.
+// belongs to the R4 rollback of a watch function: whenever it executes, the Watch call it runs under
+// fails (c12FailsWatch: it lies behind the insert on a feasible-path-wise pure error path — directly,
+// or in a statically called helper whose calls are such points), and, inside a helper, it concerns
+// the very kind that is rolled back. Anything else that stops informers or forgets kinds falls under
+// R5.
 func (p *Program) c12IsRollbackSite(c *Ctx, in ssa.Instruction) bool {
-	fn := in.Parent()
-	watch := c12WatchFuncs(c)
-	afterInsertOnErrorPath := func(x ssa.Instruction) (ssa.Value, bool) {
-		for _, w := range watch {
-			if x.Parent() != w {
-				continue
-			}
-			for _, mu := range c12KindInserts(w) {
-				for _, y := range reachableAfter(mu, nil) {
-					if y == x && p.onlyErrorReturnsAfter(x) {
-						return mu.Key, true
-					}
-				}
-			}
-		}
-		return nil, false
-	}
-	if _, ok := afterInsertOnErrorPath(in); ok {
-		return true
-	}
-	if fn.Parent() != nil || p.mayBeCalledDynamically(fn) != "" {
+	key, ok := p.c12FailsWatch(c, in, nil, 3)
+	if !ok {
 		return false
 	}
-	callers := p.callersOf(fn)
-	if len(callers) == 0 {
-		return false
-	}
-	for _, cs := range callers {
-		key, ok := afterInsertOnErrorPath(cs.Instr)
-		if !ok {
-			return false
-		}
-		if !p.c12RemovesRef(cs.Instr, key, 2) && !p.c12StopsInformer(cs.Instr, key, 2) {
-			return false
+	for _, w := range c12WatchFuncs(c) {
+		if in.Parent() == w {
+			return true // R4 judges which kind the steps in the watch function itself concern
 		}
 	}
-	return true
+	return p.c12DirectEvent(c12EvRemovesRef, in, key) || p.c12DirectEvent(c12EvStopsInformer, in, key)
 }
 
 // c12OwnerSetOf: v is the owner set of a kind: the value of ranging over informerReferences or
@@ -924,12 +899,114 @@ func c12OwnerSetOf(v ssa.Value) (kind ssa.Value, rng *ssa.Range, ok bool) {
 	return nil, nil, false
 }
 
+// c12OwnerSetOfX: c12OwnerSetOf, also for an owner set that a helper with a single call site
+// (p.soleArgument) receives as a parameter: the set is what the caller passes. kind and rng are
+// values of the function that reads the set from informerReferences.
+func (p *Program) c12OwnerSetOfX(v ssa.Value) (kind ssa.Value, rng *ssa.Range, ok bool) {
+	for i := 0; i < 3; i++ {
+		if k, r, ok := c12OwnerSetOf(v); ok {
+			return k, r, true
+		}
+		prm, isPrm := stripConv(p.c12Resolve(v)).(*ssa.Parameter)
+		if !isPrm {
+			return nil, nil, false
+		}
+		a := p.soleArgument(prm)
+		if a == nil {
+			return nil, nil, false
+		}
+		v = a
+	}
+	return nil, nil, false
+}
+
+// c12OwnerRefOfX: c12OwnerRefOf, also for a helper with a single call site that is handed the
+// owner reference its caller obtained.
+func (p *Program) c12OwnerRefOfX(v ssa.Value) (*ssa.Call, bool) {
+	for i := 0; i < 3; i++ {
+		if call, ok := p.c12OwnerRefOf(v); ok {
+			return call, true
+		}
+		prm, isPrm := stripConv(p.c12Resolve(v)).(*ssa.Parameter)
+		if !isPrm {
+			return nil, false
+		}
+		a := p.soleArgument(prm)
+		if a == nil {
+			return nil, false
+		}
+		v = a
+	}
+	return nil, false
+}
+
+// c12FreeRegion: Free and the helpers it reaches through static calls of inlinable helpers — the
+// functions whose role is to release an owner's references.
+func (p *Program) c12FreeRegion(free *ssa.Function) map[*ssa.Function]bool {
+	region := map[*ssa.Function]bool{free: true}
+	for _, xc := range p.callsInX(free) {
+		region[xc.Call.Fn] = true
+	}
+	return region
+}
+
+// c12SiteIn: the instruction of fn through which control reaches `in`: `in` itself when it lies in
+// fn, else the call in fn of the single-call-site helper (chain) that contains it; nil if there is
+// no such chain.
+func (p *Program) c12SiteIn(fn *ssa.Function, in ssa.Instruction) ssa.Instruction {
+	for i := 0; i < 4 && in != nil; i++ {
+		cur := in.Parent()
+		if cur == fn {
+			return in
+		}
+		if !p.inlinable(cur) {
+			return nil
+		}
+		callers := p.callersOf(cur)
+		if len(callers) != 1 {
+			return nil
+		}
+		in = callers[0].Instr
+	}
+	return nil
+}
+
+// c12HelperErrorReported: fn is not a helper (exported, used dynamically, without error result), or
+// every static caller of the helper fn reports a non-nil error of fn as a non-nil error of its own
+// (feasible paths behind the call, the helper's error taken to be non-nil) — up the chain of helpers.
+func (p *Program) c12HelperErrorReported(fn *ssa.Function, depth int) (bool, string) {
+	if !p.inlinable(fn) || errResultIndex(fn) < 0 {
+		return true, ""
+	}
+	if depth <= 0 {
+		return false, "helper chain above " + fn.Name() + " too deep to follow its error"
+	}
+	for _, cs := range p.callersOf(fn) {
+		call, isCall := cs.Instr.(*ssa.Call)
+		if !isCall {
+			return false, "the error of " + fn.Name() + " is lost at " + p.IPos(cs.Instr) + " (go/defer)"
+		}
+		e := c12CallErrValue(call)
+		if e == nil {
+			return false, "the error of " + fn.Name() + " is dropped at " + p.IPos(cs.Instr) + ": a failed stop would be reported as success while the kind stays registered"
+		}
+		if errResultIndex(cs.Fn) < 0 || !p.c12OnlyErrorReturnsAfter(cs.Instr, e) {
+			return false, shortFuncID(cs.Fn) + " may report success although " + fn.Name() + " failed at " + p.IPos(cs.Instr) + ": a failed stop would go unnoticed while the kind stays registered"
+		}
+		if ok, why := p.c12HelperErrorReported(cs.Fn, depth-1); !ok {
+			return false, why
+		}
+	}
+	return true, ""
+}
+
 func c12r5(c *Ctx) {
 	p := c.P
 	free := c.MustFunc(pkgDynCache, "(*Cache).Free")
 	if free == nil {
 		return
 	}
+	freeRegion := p.c12FreeRegion(free)
 	// (a) every informer stop that is not the R4 rollback
 	nStops := 0
 	for _, fn := range p.FuncsIn(pkgDynCache) {
@@ -949,16 +1026,16 @@ func c12r5(c *Ctx) {
 				continue
 			}
 			kind := args[1]
-			fs := p.FactsAt(call.Instr.Block())
+			fs := p.FactsAtX(call.Instr.Block()) // with the facts of the call sites of an extracted helper
 			var problems []string
 			// membership
 			var refs ssa.Value
 			member := lookupFact(fs, true, func(lk *ssa.Lookup) bool {
-				k, _, ok := c12OwnerSetOf(lk.X)
+				k, _, ok := p.c12OwnerSetOfX(lk.X)
 				if !ok || k == nil || !p.sameValue(k, kind) {
 					return false
 				}
-				_, isOwner := p.c12OwnerRefOf(lk.Index)
+				_, isOwner := p.c12OwnerRefOfX(lk.Index)
 				return isOwner
 			})
 			if member == nil {
@@ -973,7 +1050,7 @@ func c12r5(c *Ctx) {
 				if !ok || f.Pol == nonEmptyWhenTrue {
 					continue
 				}
-				k, _, isSet := c12OwnerSetOf(x)
+				k, _, isSet := p.c12OwnerSetOfX(x)
 				if !isSet || k == nil || !p.sameValue(k, kind) {
 					continue
 				}
@@ -996,7 +1073,7 @@ func c12r5(c *Ctx) {
 						if !isDel || len(da) != 2 || !p.sameValue(da[0], x) {
 							continue
 						}
-						if _, isOwner := p.c12OwnerRefOf(da[1]); !isOwner {
+						if _, isOwner := p.c12OwnerRefOfX(da[1]); !isOwner {
 							continue
 						}
 						if in.Block() == lenCall.Block() && instrIndex(in) < instrIndex(lenCall) || in.Block() != lenCall.Block() && in.Block().Dominates(lenCall.Block()) {
@@ -1028,9 +1105,18 @@ func c12r5(c *Ctx) {
 			}) {
 				problems = append(problems, "delete(informerReferences, kind) does not follow the stop on every successful path (a later Watch would not restart the informer)")
 			}
+			// a failed stop leaves the kind registered and is excused only because the error is reported:
+			// in a helper, its callers have to hand that error on
+			if ok, why := p.c12HelperErrorReported(fn, 3); !ok {
+				problems = append(problems, why)
+			}
 			if len(problems) == 0 {
 				o.OK()
 			} else {
+				if !freeRegion[fn] {
+					// say which role the site was judged in: it is not the release of an owner's reference
+					problems = append([]string{"this stop is neither part of Free (or of a helper only Free uses) nor of a recognised rollback of a failed Watch, so it is held to the conditions of Free"}, problems...)
+				}
 				o.Fail("%s", strings.Join(problems, "; "))
 			}
 		}
@@ -1039,8 +1125,8 @@ func c12r5(c *Ctx) {
 		c.AnchorLost("informerMap.Delete call outside the Watch rollback")
 	}
 	inFree := false
-	for _, call := range callsIn(free) {
-		if c12InformerMapCall(call.Common, "Delete") {
+	for _, xc := range p.callsInX(free) {
+		if c12InformerMapCall(xc.Call.Common, "Delete") {
 			inFree = true
 		}
 	}
@@ -1048,6 +1134,66 @@ func c12r5(c *Ctx) {
 		c.AnchorLost("informerMap.Delete call in (*Cache).Free")
 	}
 	// (b) removals from owner sets / kinds
+	judged := map[ssa.Instruction]bool{}
+	ownerRemoval := func(fn *ssa.Function, in ssa.Instruction, args []ssa.Value) {
+		if judged[in] {
+			return
+		}
+		judged[in] = true
+		o := c.Ob(fn, "owner-removal", in, "only the freed owner's own reference (ownerRef(owner)) is removed from an owner set, and every kind is visited")
+		var problems []string
+		if _, ok := p.c12OwnerRefOfX(args[1]); !ok {
+			problems = append(problems, "removed key is "+p.describe(args[1])+", not ownerRef(<owner parameter>)")
+		}
+		_, rng, isSet := p.c12OwnerSetOfX(args[0])
+		switch {
+		case !isSet:
+			problems = append(problems, "owner set not recognised")
+		case rng == nil:
+			problems = append(problems, "owner set is not obtained by ranging over all of informerReferences")
+		default:
+			// the loop is where the owner sets are enumerated: around the removal itself, or around the
+			// call of the helper that performs it
+			var l *Loop
+			if site := p.c12SiteIn(rng.Parent(), in); site != nil {
+				l = innermostLoop(rng.Parent(), site.Block())
+			}
+			if l == nil {
+				problems = append(problems, "removal is not inside the loop over informerReferences")
+			} else if ok, at := p.loopEarlyExitsFail(l); !ok {
+				problems = append(problems, "the loop over informerReferences can be left early with a possibly-nil error at "+at+" (remaining kinds keep the owner)")
+			}
+		}
+		if len(problems) == 0 {
+			o.OK()
+		} else {
+			o.Fail("%s", strings.Join(problems, "; "))
+		}
+	}
+	// an owner set handed to a helper of Free: the accesses made through the parameter
+	var freeHelpers []*ssa.Function
+	for h := range freeRegion {
+		if h != free {
+			freeHelpers = append(freeHelpers, h)
+		}
+	}
+	sort.Slice(freeHelpers, func(i, j int) bool { return shortFuncID(freeHelpers[i]) < shortFuncID(freeHelpers[j]) })
+	for _, h := range freeHelpers {
+		for _, b := range h.Blocks {
+			for _, in := range b.Instrs {
+				args, isDel := builtinCall(in, "delete")
+				if !isDel || len(args) != 2 {
+					continue
+				}
+				if _, isPrm := stripConv(p.c12Resolve(args[0])).(*ssa.Parameter); !isPrm {
+					continue
+				}
+				if _, _, isSet := p.c12OwnerSetOfX(args[0]); isSet {
+					ownerRemoval(h, in, args)
+				}
+			}
+		}
+	}
 	for _, a := range p.fieldAccesses(c12Cache, c12Refs) {
 		if a.Kind != "delete" {
 			continue
@@ -1057,30 +1203,7 @@ func c12r5(c *Ctx) {
 			continue
 		}
 		if a.Derived {
-			o := c.Ob(a.Fn, "owner-removal", a.Instr, "only the freed owner's own reference (ownerRef(owner)) is removed from an owner set, and every kind is visited")
-			var problems []string
-			if _, ok := p.c12OwnerRefOf(args[1]); !ok {
-				problems = append(problems, "removed key is "+p.describe(args[1])+", not ownerRef(<owner parameter>)")
-			}
-			_, rng, isSet := c12OwnerSetOf(args[0])
-			switch {
-			case !isSet:
-				problems = append(problems, "owner set not recognised")
-			case rng == nil:
-				problems = append(problems, "owner set is not obtained by ranging over all of informerReferences")
-			default:
-				l := innermostLoop(a.Fn, a.Instr.Block())
-				if l == nil {
-					problems = append(problems, "removal is not inside the loop over informerReferences")
-				} else if ok, at := p.loopEarlyExitsFail(l); !ok {
-					problems = append(problems, "the loop over informerReferences can be left early with a possibly-nil error at "+at+" (remaining kinds keep the owner)")
-				}
-			}
-			if len(problems) == 0 {
-				o.OK()
-			} else {
-				o.Fail("%s", strings.Join(problems, "; "))
-			}
+			ownerRemoval(a.Fn, a.Instr, args)
 			continue
 		}
 		if p.c12IsRollbackSite(c, a.Instr) {
@@ -1088,12 +1211,12 @@ func c12r5(c *Ctx) {
 		}
 		o := c.Ob(a.Fn, "kind-removal", a.Instr, "a kind is forgotten only when its owner set is empty")
 		ok := false
-		for _, f := range p.FactsAt(a.Instr.Block()) {
+		for _, f := range p.FactsAtX(a.Instr.Block()) {
 			x, nonEmptyWhenTrue, isLen := lenCmp(f.Cond)
 			if !isLen || f.Pol == nonEmptyWhenTrue {
 				continue
 			}
-			if k, _, isSet := c12OwnerSetOf(x); isSet && k != nil && p.sameValue(k, args[1]) {
+			if k, _, isSet := p.c12OwnerSetOfX(x); isSet && k != nil && p.sameValue(k, args[1]) {
 				ok = true
 			}
 		}
@@ -1225,10 +1348,7 @@ func (p *Program) c12ErrCases(fn *ssa.Function, depth int) []c12ErrCase {
 
 func c12r6(c *Ctx) {
 	p := c.P
-	watch := map[*ssa.Function]bool{}
-	for _, f := range c12WatchFuncs(c) {
-		watch[f] = true
-	}
+	watch := c12WatchRegion(c)
 	n := 0
 	for _, gfn := range p.FuncsIn(pkgDynCache) {
 		if watch[gfn] {
